@@ -650,6 +650,13 @@ func (s *Subtitles) Optimize() {
 func (s *Subtitles) removeUnusedRegionsAndStyles() {
 	// Loop through items
 	var usedRegions, usedStyles = make(map[string]bool), make(map[string]bool)
+
+	// A used style needs the styles it inherits from as well
+	var useStyle = func(style *Style) {
+		for ; style != nil && !usedStyles[style.ID]; style = style.Style {
+			usedStyles[style.ID] = true
+		}
+	}
 	for _, item := range s.Items {
 		// Add region
 		if item.Region != nil {
@@ -657,18 +664,14 @@ func (s *Subtitles) removeUnusedRegionsAndStyles() {
 		}
 
 		// Add style
-		if item.Style != nil {
-			usedStyles[item.Style.ID] = true
-		}
+		useStyle(item.Style)
 
 		// Loop through lines
 		for _, line := range item.Lines {
 			// Loop through line items
 			for _, lineItem := range line.Items {
 				// Add style
-				if lineItem.Style != nil {
-					usedStyles[lineItem.Style.ID] = true
-				}
+				useStyle(lineItem.Style)
 			}
 		}
 	}
@@ -676,9 +679,7 @@ func (s *Subtitles) removeUnusedRegionsAndStyles() {
 	// Loop through regions
 	for id, region := range s.Regions {
 		if _, ok := usedRegions[region.ID]; ok {
-			if region.Style != nil {
-				usedStyles[region.Style.ID] = true
-			}
+			useStyle(region.Style)
 		} else {
 			delete(s.Regions, id)
 		}
